@@ -41,7 +41,7 @@ package cmd
 //@   expect calls agent.New >= 1
 //@   expect calls (persistence.HistoryStore).FindByRequestID >= 1
 //@   assert before (persistence.HistoryStore).FindByRequestID [C10 retried_run_is_the_one_asked_for] arg1 == absoluteFilePath && arg2 == requestID
-//@   assert before dag.Load [C10 retry_uses_the_recorded_parameters] arg1 == absoluteFilePath && arg2 == status.Status.Params
+//@   assert before dag.Load [C10,C11 retry_uses_the_recorded_parameters] arg1 == absoluteFilePath && arg2 == status.Status.Params
 //@   assert before agent.New [C10 retry_is_a_new_run_of_the_recorded_status] arg0 == newRequestID && arg1 == workflow && arg7 != nil && arg7.RetryTarget == status.Status
 
 // start (C11): the DAG is loaded with the text given to --params, with the one pair of quotes that client.Start put
